@@ -276,6 +276,103 @@ func c18(r *rep.Run) {
 			}
 		}
 	}
+	// wide folds: every variadic scalar operator with 5..127 operands, all equal
+	// to a neutral base value except ONE operand at every position (and, for
+	// the arithmetic folds, a second one), written as literals and as variables,
+	// both option sets: the fold takes every operand into account whatever its
+	// index
+	{
+		h := hs[0]
+		type wide struct {
+			name     string
+			base, dv interface{}
+		}
+		var ws []wide
+		for _, n := range names {
+			switch ref.Alias[n] {
+			case "and":
+				ws = append(ws, wide{n, true, false})
+			case "or":
+				ws = append(ws, wide{n, false, true})
+			case "xor":
+				ws = append(ws, wide{n, false, true}, wide{n, true, false})
+			case "add":
+				ws = append(ws, wide{n, int64(0), int64(5)}, wide{n, int64(1), int64(math.MaxInt64)})
+			case "sub":
+				ws = append(ws, wide{n, int64(0), int64(7)})
+			case "mul":
+				ws = append(ws, wide{n, int64(1), int64(3)}, wide{n, int64(1), int64(0)})
+			case "eq":
+				ws = append(ws, wide{n, int64(4), int64(5)})
+			}
+		}
+		counts := []int{5, 8, 16, 31, 32, 33, 63, 64, 65, 66, 100, 126, 127}
+		var n int64
+		for _, wd := range ws {
+			for _, cnt := range counts {
+				vars := make([]term.VarDecl, cnt)
+				for k := range vars {
+					vars[k] = term.VarDecl{Name: fmt.Sprintf("v%d", k), Ty: term.TX}
+				}
+				positions := []int{-1}
+				for p := 0; p < cnt; p++ {
+					if cnt <= 33 || p < 2 || p >= cnt-3 || (p >= 30 && p <= 34) || (p >= 62 && p <= 66) || p%16 == 7 {
+						positions = append(positions, p)
+					}
+				}
+				for _, pos := range positions {
+					ops := make([]interface{}, cnt)
+					for k := range ops {
+						ops[k] = wd.base
+					}
+					if pos >= 0 {
+						ops[pos] = wd.dv
+					}
+					want, werr := ref.Builtin(wd.name, ops)
+					if werr == ref.ErrUndefined {
+						continue
+					}
+					for form := 0; form < 2; form++ {
+						var sb strings.Builder
+						sb.WriteString("(" + wd.name)
+						for k, o := range ops {
+							if form == 0 {
+								sb.WriteString(" " + c18Lit(o))
+							} else {
+								sb.WriteString(fmt.Sprintf(" v%d", k))
+							}
+						}
+						sb.WriteString(")")
+						src := sb.String()
+						for _, o := range opts {
+							var vs []term.VarDecl
+							if form == 1 {
+								vs = vars
+							}
+							e, err := h.Compile(h.NewConfig(vs, o), src, 0)
+							n++
+							d := map[string]interface{}{"operator": wd.name, "operands": cnt, "deviating_position": pos, "base": fmt.Sprint(wd.base), "deviating_value": fmt.Sprint(wd.dv), "config": o.String(), "form": []string{"literals", "variables"}[form]}
+							if err != nil {
+								r.Violate("algebra", "wide-compile"+wd.name, sprintf("(%s ...) with %d operands does not compile: %v", wd.name, cnt, err), d)
+								continue
+							}
+							f := drive.NewFetcher(h, vs, o)
+							if form == 1 {
+								copy(f.Vals, ops)
+							}
+							h.Reset()
+							got := h.Eval(e, f)
+							if !drive.SameOutcome(got, refOut(want, werr)) {
+								r.Violate("algebra", "wide"+wd.name+fmt.Sprint(cnt), sprintf("(%s ...) with %d operands, all %v except operand #%d = %v (%s, %s): %s, the fold gives %s", wd.name, cnt, wd.base, pos, wd.dv, d["form"], o, got, refOut(want, werr)), d)
+							}
+						}
+					}
+				}
+			}
+		}
+		atomic.AddInt64(&evals, n)
+		r.Cov["wide_fold_evaluations"] = n
+	}
 	// compositions: the boolean folds nested in one another (every ordered pair
 	// of and/or/xor spellings, either operand position, optionally under not),
 	// every boolean assignment, operands written as literals and as variables,
